@@ -331,7 +331,7 @@ def _argparse_kwargs(p):
     return kws
 
 
-def render_argparse(desc, name="set_cli_args", indent="", docstring=True):
+def render_argparse(desc, name="set_cli_args", indent="", docstring=True, description=True):
     ind = indent + "    "
     lines = [indent + "def %s(argument_parser):" % name, ind + '"""', ind + "Set CLI arguments", "",
              ind + ":param argument_parser: argument parser", ind + ":type argument_parser: ```ArgumentParser```", ""]
@@ -344,7 +344,8 @@ def render_argparse(desc, name="set_cli_args", indent="", docstring=True):
     lines.append(ind + '"""')
     if not docstring:
         lines = lines[:1]  # a hand-written set_cli_args often has no docstring at all
-    lines.append(ind + "argument_parser.description = %r" % desc["doc"])
+    if description:
+        lines.append(ind + "argument_parser.description = %r" % desc["doc"])
     for p in desc["params"]:
         lines.append(ind + "argument_parser.add_argument(%s)" % ", ".join(["'--%s'" % p["name"]] + _argparse_kwargs(p)))
     if r and r.get("default") is not None:
